@@ -67,6 +67,8 @@ impl<C: CompressionStrategyConfig> CmdCompressor<C> {
             | DataCmdType::Decr
             | DataCmdType::Decrby
             | DataCmdType::Getbit
+            | DataCmdType::Getdel
+            | DataCmdType::Getex
             | DataCmdType::Getrange
             | DataCmdType::Incr
             | DataCmdType::Incrby
@@ -74,7 +76,8 @@ impl<C: CompressionStrategyConfig> CmdCompressor<C> {
             | DataCmdType::Mget
             | DataCmdType::Setbit
             | DataCmdType::Setrange
-            | DataCmdType::Strlen => match strategy {
+            | DataCmdType::Strlen
+            | DataCmdType::Substr => match strategy {
                 CompressionStrategy::SetGetOnly => return Err(CompressionError::RestrictedCmd),
                 _ => return Err(CompressionError::UnsupportedCmdType),
             },
